@@ -31,15 +31,34 @@ func PlayJunk(scn M, rng *rand.Rand) ([]M, error) {
 	conn.WaitQuiet(WaitTimeout) //nolint
 	out := []M{{"k": "cfg", "probe": false}}
 	wedged := false
+	live := false // measure what is still held afterwards (after a collection) instead of what was allocated in passing
 	sendMeasured := func(b []byte) {
 		var before, after runtime.MemStats
+		if live {
+			runtime.GC()
+		}
 		runtime.ReadMemStats(&before)
 		conn.Send(b, mem.Ev{"k": "junk", "n": len(b)})
 		if _, err := conn.WaitQuiet(WaitTimeout); err != nil {
 			wedged = true
 		}
+		if live {
+			runtime.GC()
+		}
 		runtime.ReadMemStats(&after)
-		x.Log.Append(mem.Ev{"k": "x-alloc", "conn": conn.ID, "bytes": capInt(after.TotalAlloc - before.TotalAlloc), "sent": len(b), "limit": L})
+		// what the input made the process take: heap allocation, and stack (a goroutine that nests deeper with
+		// every message keeps its memory on the stack)
+		grown := after.TotalAlloc - before.TotalAlloc
+		if live {
+			grown = 0
+			if after.HeapAlloc > before.HeapAlloc {
+				grown = after.HeapAlloc - before.HeapAlloc
+			}
+		}
+		if after.StackSys > before.StackSys {
+			grown += after.StackSys - before.StackSys
+		}
+		x.Log.Append(mem.Ev{"k": "x-alloc", "conn": conn.ID, "bytes": capInt(grown), "sent": len(b), "limit": L})
 	}
 	started := false
 	start := func() {
@@ -99,6 +118,31 @@ func PlayJunk(scn M, rng *rand.Rand) ([]M, error) {
 			b = pgw.TypedDeclared([]byte("QBPDEdX")[rng.Intn(7)], d, randomBytes(rng, 10))
 		}
 		sendMeasured(b)
+	case "flood": // hundreds of thousands of the messages a COPY ignores (Sync, Flush), in one go, while a handler reads COPY data
+		start()
+		conn.Send(pgw.Query("q1"), mem.Ev{"k": "send", "m": M{"t": "Q"}})
+		conn.WaitQuiet(WaitTimeout) //nolint
+		n := 100000 + rng.Intn(300000)
+		b := make([]byte, 0, 5*n)
+		for i := 0; i < n; i++ {
+			if rng.Intn(2) == 0 {
+				b = append(b, pgw.Sync()...)
+			} else {
+				b = append(b, pgw.Flush()...)
+			}
+		}
+		// (a constant cost per message is no ballooning: what counts is what the server still holds when all of them
+		// have been taken in)
+		live = true
+		sendMeasured(b)
+		live = false
+		if !wedged && !conn.ServerClosed() {
+			conn.Send(pgw.CopyDone(), mem.Ev{"k": "send", "m": M{"t": "c"}})
+			conn.Send(pgw.Sync(), mem.Ev{"k": "send", "m": M{"t": "S"}})
+			if _, err := conn.WaitQuiet(WaitTimeout); err != nil {
+				wedged = true
+			}
+		}
 	case "copybin": // hostile bytes as a binary COPY stream, read through the library's row reader
 		start()
 		conn.Send(pgw.Query("q1"), mem.Ev{"k": "send", "m": M{"t": "Q"}})
